@@ -43,7 +43,7 @@ CLAIMED = {
                 design='DESIGN.md 4/C05'),
     'C07': dict(text='Bounded model checking of model and infer: false leaf iff unsatisfiable, single cube, implies f, mentions only support variables; infer (true,true) iff forced.',
                 design='DESIGN.md 4/C07'),
-    'C14': dict(text='Bounded model checking of the crate\'s Graphviz descriptions with dot::render replaced by its contract (node statements from nodes()/node_id/node_label, edge statements from edges()/source/target/edge_label): the real MIR of BDDGraph (src/bdd_io.rs) on the canonical diagram of every function of 1..2 (3) variables with an unknown filter - ids distinct, edges between declared nodes, read back from the root along T/F edges the description evaluates to the function, only the leaf opposite to the filter is missing - and of SymbolicParseTree (src/parser_io.rs) on formula sketches - shared identical sub-terms, one root, labels / edge labels / out-degrees read back as a term give the parsed tree; main hands the evaluated diagram with the filter (-d) and the parsed tree (-p) to the renderer. Rendered addresses are identified with node structure (sharing: C13). The DOT text itself is checked on replayed cases only.',
+    'C14': dict(text='Bounded model checking of the crate\'s Graphviz descriptions with dot::render replaced by its contract (node statements from nodes()/node_id/node_label, edge statements from edges()/source/target/edge_label): the real MIR of BDDGraph (src/bdd_io.rs) on the canonical diagram of every function of 1..2 variables with an unknown filter - ids distinct, edges between declared nodes, read back from the root along T/F edges the description evaluates to the function, only the leaf opposite to the filter is missing - and of SymbolicParseTree (src/parser_io.rs) on formula sketches - shared identical sub-terms, one root, labels / edge labels / out-degrees read back as a term give the parsed tree; main hands the evaluated diagram with the filter (-d) and the parsed tree (-p) to the renderer. Rendered addresses are identified with node structure (sharing: C13). The DOT text itself is checked on replayed cases only.',
                 design='DESIGN.md 4/C14'),
     'C15': dict(text='Translation validation of n_queens_gen: for every board size in the bound the real binary\'s output is parsed by an independent front end (and the real parser) and the solver decides that the emitted formula and the n-queens specification agree on ALL 2^(n*n) assignments; for n <= 4 the real evaluator\'s truth table is also compared.', design='DESIGN.md 4/C15', category='translation_validation', engine='gencheck', note=TV_NOTE, technique='translation validation: real generator output vs independent specification, equivalence over all assignments decided by z3'),
     'C16': dict(text='Translation validation of max_clique_gen over all simple graphs on <= 3 vertices (one-directional and symmetric), duplicates, self loops, seeded multigraphs, helper-name collisions, x {-u} x {-a}: emitted formula == maximum-clique (all-clique) specification on every vertex subset.', design='DESIGN.md 4/C16', category='translation_validation', engine='gencheck', note=TV_NOTE, technique='translation validation: real generator output vs independent specification, equivalence over all assignments decided by z3'),
